@@ -75,8 +75,23 @@ class World(object):
     return self.clock[0]
 
   # ------------------------------------------------------------------ one execution
-  def run(self, recv_ops, writer_plan, policy=None, step_monitor=None, timeout=30.0, drain_rest=True,
-          t0_offset=0.0, receivers=0, pre=None, snap_stores=False, fault_plan=None):
+  def run(self, recv_ops, writer_plan, policy=None, **kw):
+    """Runs one schedule.  A watchdog expiry is retried once with a longer limit when the policy is replayable
+    (load spikes on a shared machine must not turn into verdicts); a second expiry is reported."""
+    h = self._run_once(recv_ops, writer_plan, policy=policy, **kw)
+    if isinstance(h.sched_error, TimeoutError) and isinstance(policy, (S.DeviationPolicy, type(None))):
+      self.watchdog_retries = getattr(self, 'watchdog_retries', 0) + 1
+      kw['timeout'] = 4 * kw.get('timeout', 30.0)
+      h = self._run_once(recv_ops, writer_plan, policy=policy, **kw)
+    elif isinstance(h.sched_error, TimeoutError):
+      # non-replayable (random) policy: replay the recorded deviations
+      self.watchdog_retries = getattr(self, 'watchdog_retries', 0) + 1
+      kw['timeout'] = 4 * kw.get('timeout', 30.0)
+      h = self._run_once(recv_ops, writer_plan, policy=S.DeviationPolicy(h.deviations), **kw)
+    return h
+
+  def _run_once(self, recv_ops, writer_plan, policy=None, step_monitor=None, timeout=30.0, drain_rest=True,
+                t0_offset=0.0, receivers=0, pre=None, snap_stores=False, fault_plan=None):
     cc, writer, state = self.cc, self.writer, self.state
     import random as _random
     _random.seed(424242)          # RandomStrategy uses the global PRNG: keep runs replayable
